@@ -116,6 +116,14 @@ class RequireWalker(lua.BaseASTWalker):
                 use_game_loop = arg_exps[1].value.fields[0].exp.value
 
             yield (require_path, use_game_loop, self._tokens[node.start_pos])
+            return
+
+        # Not a require() call itself: look for require() calls in the called
+        # expression and in the arguments, e.g. f(require("p")) or
+        # require("p").f().
+        for field in node._fields:
+            for t in self._walk(getattr(node, field)):
+                yield t
 
 
 def _evaluate_require(ast, file_path, package_lua, lua_path=None):
